@@ -34,11 +34,11 @@ theorem tamper_safe_partial (c : Crypto) (cd : Codec) (P : EncParams) (pwf : P.W
   unfold decryptImpl
   cases hrh : readHeaderWith true P r with
   | error e =>
-    rw [decryptWith_err _ _ _ _ _ _ _ hrh]
+    rw [decryptWith_err _ _ _ _ _ _ _ _ hrh]
     exact ⟨⟨p, rfl⟩, fun h => by cases h⟩
   | ok x =>
     obtain ⟨ml, cl, r'⟩ := x
-    rw [decryptWith_ok _ _ _ _ _ _ _ _ _ hrh]
+    rw [decryptWith_ok _ _ _ _ _ _ _ _ _ _ hrh]
     cases hp : cd.parse ml with
     | none => exact ⟨⟨p, rfl⟩, fun h => by cases h⟩
     | some m' =>
@@ -49,11 +49,22 @@ theorem tamper_safe_partial (c : Crypto) (cd : Codec) (P : EncParams) (pwf : P.W
         by_cases hk : (if o.keyName.isEmpty then m'.keyName else o.keyName).isEmpty = true
         · simp only [hk, if_true]; exact ⟨⟨p, rfl⟩, fun h => by cases h⟩
         · simp only [hk, Bool.false_eq_true, if_false]
-          cases hver : verifyHeader c cd P (effKey P (o.unwrap m' (if o.keyName.isEmpty then m'.keyName else o.keyName))) ml cl with
+          cases hver : verifyHeader c cd P (effKey true P o m' (if o.keyName.isEmpty then m'.keyName else o.keyName)) ml cl with
           | some e => exact ⟨⟨p, rfl⟩, fun h => by cases h⟩
           | none =>
-            simp only []
-            obtain ⟨hfk, hnp, hcph⟩ := nf.header ml cl r' m' _ hrh hp hver
+            simp only [Bool.true_and]
+            by_cases hbad : unwrapFailed true P o m' (if o.keyName.isEmpty then m'.keyName else o.keyName) = true
+            · -- the unwrap failed: refused after the MAC check, whatever the MAC said
+              simp only [hbad, if_true]
+              exact ⟨⟨p, rfl⟩, fun h => by cases h⟩
+            have hgood : unwrapFailed true P o m' (if o.keyName.isEmpty then m'.keyName else o.keyName) = false := by
+              simpa using hbad
+            have heff : effKey true P o m' (if o.keyName.isEmpty then m'.keyName else o.keyName) =
+                o.unwrap m' (if o.keyName.isEmpty then m'.keyName else o.keyName) := by
+              unfold effKey; rw [hgood]; rfl
+            simp only [hgood, Bool.false_eq_true, if_false]
+            rw [heff] at hver ⊢
+            obtain ⟨hfk, hnp, hcph⟩ := nf.header ml cl r' m' _ hrh hp hgood hver
             rw [hfk, hnp, hcph]
             have hpos : 0 < P.segSize + P.overhead := by have := pwf.seg_pos; omega
             rw [processSegments_spec _ _ _ hpos r']
@@ -94,10 +105,10 @@ theorem source_error_surfaces (c : Crypto) (cd : Codec) (P : EncParams) (pwf : P
     (r : Reader) (hfail : r.term.fails = true) : (decryptImpl c cd P o r).2 ≠ .ok := by
   unfold decryptImpl
   cases hrh : readHeaderWith true P r with
-  | error e => rw [decryptWith_err _ _ _ _ _ _ _ hrh]; intro h; cases h
+  | error e => rw [decryptWith_err _ _ _ _ _ _ _ _ hrh]; intro h; cases h
   | ok x =>
     obtain ⟨ml, cl, r'⟩ := x
-    rw [decryptWith_ok _ _ _ _ _ _ _ _ _ hrh]
+    rw [decryptWith_ok _ _ _ _ _ _ _ _ _ _ hrh]
     cases hp : cd.parse ml with
     | none => intro h; cases h
     | some m' =>
@@ -108,10 +119,13 @@ theorem source_error_surfaces (c : Crypto) (cd : Codec) (P : EncParams) (pwf : P
         by_cases hk : (if o.keyName.isEmpty then m'.keyName else o.keyName).isEmpty = true
         · simp only [hk, if_true]; intro h; cases h
         · simp only [hk, Bool.false_eq_true, if_false]
-          cases hver : verifyHeader c cd P (effKey P (o.unwrap m' (if o.keyName.isEmpty then m'.keyName else o.keyName))) ml cl with
+          cases hver : verifyHeader c cd P (effKey true P o m' (if o.keyName.isEmpty then m'.keyName else o.keyName)) ml cl with
           | some e => intro h; cases h
           | none =>
-            simp only []
+            simp only [Bool.true_and]
+            by_cases hbad : unwrapFailed true P o m' (if o.keyName.isEmpty then m'.keyName else o.keyName) = true
+            · simp only [hbad, if_true]; intro h; cases h
+            simp only [hbad, Bool.false_eq_true, if_false]
             have hf : r'.term.fails = true := by rw [readHeader_term P r ml cl r' hrh]; exact hfail
             have hpos : 0 < P.segSize + P.overhead := by have := pwf.seg_pos; omega
             rw [processSegments_spec _ _ _ hpos r']
@@ -133,6 +147,7 @@ theorem header_only_accepted (c : Crypto) (cd : Codec) (P : EncParams) (pwf : P.
     (hmac : ∀ k msg, c.hmac k msg ≠ []) (fk : Bytes) (hfk : fk.length = P.fkLen)
     (m : Manifest) (lcd : cd.LawfulFor m) (hm : m.valid P = true) (p : Bytes) (o : DecryptOpts)
     (hkn : o.keyName ≠ [] ∨ m.keyName ≠ []) (hunwrap : ∀ kn, o.unwrap m kn = fk)
+    (hnf : ∀ kn, o.unwrapFails m kn = false)
     (hhdr : (signHeader c cd P fk (cd.render m)).length ≤ P.hdrMax)
     (r : Reader) (heof : r.term = .eof)
     (hstream : r.stream = (specEncrypt c cd P fk m p).take (signHeader c cd P fk (cd.render m)).length) :
@@ -141,7 +156,7 @@ theorem header_only_accepted (c : Crypto) (cd : Codec) (P : EncParams) (pwf : P.
       = signHeader c cd P fk (cd.render m) ++ [] := by
     rw [specEncrypt_eq, ← signHeader_eq, List.take_left', List.append_nil]; rfl
   rw [hcut] at hstream
-  obtain ⟨r', hrs, hrt, hdec⟩ := decrypt_of_honest_header true c cd P pwf hmac fk hfk m lcd hm o hkn hunwrap [] r heof hhdr hstream
+  obtain ⟨r', hrs, hrt, hdec⟩ := decrypt_of_honest_header true c cd P pwf hmac fk hfk m lcd hm o hkn hunwrap hnf [] r heof hhdr hstream
   unfold decryptImpl
   have hpos : 0 < P.segSize + P.overhead := by have := pwf.seg_pos; omega
   rw [hdec, processSegments_nil _ _ hpos _ r' hrt hrs]
@@ -372,10 +387,10 @@ theorem mac_before_payload (c : Crypto) (cd : Codec) (P : EncParams) (o : Decryp
     (ml cl : Bytes) (r' : Reader) (m' : Manifest) (e : Err)
     (hrh : readHeader P r = .ok (ml, cl, r')) (hp : cd.parse ml = some m') (hv : m'.valid P = true)
     (hk : (if o.keyName.isEmpty then m'.keyName else o.keyName).isEmpty = false)
-    (hver : verifyHeader c cd P (effKey P (o.unwrap m' (if o.keyName.isEmpty then m'.keyName else o.keyName))) ml cl = some e) :
+    (hver : verifyHeader c cd P (effKey true P o m' (if o.keyName.isEmpty then m'.keyName else o.keyName)) ml cl = some e) :
     decryptImpl c cd P o r = ([], .err e) := by
   unfold decryptImpl
-  rw [decryptWith_ok _ _ _ _ _ _ _ _ _ hrh, hp]
+  rw [decryptWith_ok _ _ _ _ _ _ _ _ _ _ hrh, hp]
   simp only [hv, Bool.not_true, Bool.false_eq_true, if_false, hk, hver]
 
 /-- A segment reaches the consumer only after `Open` succeeded on it: the released bytes are
@@ -421,6 +436,13 @@ theorem decrypt_order_as_modelled :
       "VerifyHeaderSignature", "processSegments"] ∧
     Gen.maxSegment + 1 = 2 ^ 32 ∧ Gen.fileKeyLength = 32 := by decide
 
+/-- T1: the refusal of a failed unwrap is in the source where the model has it: `unwrapFailed` is
+    "error or not 32 bytes", and the statement right after `VerifyHeaderSignature` turns a verified MAC
+    into `ErrDecryptionSignature` when the unwrap had failed. -/
+theorem bad_unwrap_refusal_as_modelled :
+    Gen.badUnwrapRefusal = ["unwrapErr!=nil||len(fileKeyBytes)!=32", "err==nil&&unwrapFailed", "ErrDecryptionSignature"] := by
+  decide
+
 /-- T1 (pool hygiene): every function of the package that takes a buffer from `BufPool` has exactly one
     `Get`, exactly one `Put`, and that `Put` is a `defer` in the statement right after the `Get` — so a
     buffer is never handed back twice, and never while the function still uses it. (A second `Put`
@@ -437,6 +459,91 @@ theorem tamper_safe_on_honest_prefixes (c : Crypto) (P : EncParams) (cph : Nat) 
   have := presented_honest c P cph pk np (segments P.segSize p) []
   simpa using this
 
+/-! ### a failed unwrap -/
+
+/-- **A failed unwrap never decrypts** — with no cryptographic hypothesis at all: if `UnwrapKeyFn`
+    reports an error or does not return a key of `fkLen` bytes (for the manifest and key name of the
+    run), then whatever the document — in particular one MACed and sealed under the all-zero key that
+    `Decrypt` substitutes — nothing is released and the terminal is an error. -/
+theorem bad_unwrap_never_ok (c : Crypto) (cd : Codec) (P : EncParams) (o : DecryptOpts) (r : Reader)
+    (hbad : ∀ m kn, o.unwrapFails m kn = true ∨ (o.unwrap m kn).length ≠ P.fkLen) :
+    (decryptImpl c cd P o r).1 = [] ∧ (decryptImpl c cd P o r).2 ≠ .ok := by
+  have key : ∀ m kn, unwrapFailed true P o m kn = true := by
+    intro m kn
+    unfold unwrapFailed
+    rcases hbad m kn with h | h
+    · rw [h]; rfl
+    · simp [h]
+  unfold decryptImpl
+  cases hrh : readHeaderWith true P r with
+  | error e => rw [decryptWith_err _ _ _ _ _ _ _ _ hrh]; refine ⟨?_, ?_⟩ <;> simp
+  | ok x =>
+    obtain ⟨ml, cl, r'⟩ := x
+    rw [decryptWith_ok _ _ _ _ _ _ _ _ _ _ hrh]
+    cases hp : cd.parse ml with
+    | none => refine ⟨?_, ?_⟩ <;> simp
+    | some m' =>
+      simp only []
+      by_cases hv : (!m'.valid P) = true
+      · simp only [hv, if_true]; refine ⟨?_, ?_⟩ <;> simp
+      · simp only [hv, Bool.false_eq_true, if_false]
+        by_cases hk : (if o.keyName.isEmpty then m'.keyName else o.keyName).isEmpty = true
+        · simp only [hk, if_true]; refine ⟨?_, ?_⟩ <;> simp
+        · simp only [hk, Bool.false_eq_true, if_false, key, Bool.and_self, if_true]
+          cases verifyHeader c cd P (effKey true P o m' (if o.keyName.isEmpty then m'.keyName else o.keyName)) ml cl with
+          | some e => refine ⟨?_, ?_⟩ <;> simp
+          | none => refine ⟨?_, ?_⟩ <;> simp
+
+/-- The forgery the fix closes, as data: manifest, attacker plaintext, and the victim's options whose
+    `UnwrapKeyFn` returns no key. -/
+def zkManifest : Manifest := ⟨[118], 1, [9, 9, 9], 1, [1, 2, 3, 4, 5, 6, 7]⟩
+def zkOpts : DecryptOpts := { unwrap := fun _ _ => [] }
+def zkReader : Reader :=
+  { data := specEncrypt Toy.toyCrypto Toy.toyCodec EncParams.generated (List.replicate 32 0) zkManifest [66, 65, 68] }
+
+/-- **Pre-fix witness (finding `zero-key-forgery`)**: on the code before the fix (`refuse = false`) a
+    document MACed and sealed under the public all-zero key is accepted when the victim's unwrap fails:
+    the attacker's bytes `BAD` are released with a clean EOF. After the fix the same run is refused
+    (`bad_unwrap_never_ok`). -/
+theorem zero_key_forgery_witness :
+    decryptWith true false Toy.toyCrypto Toy.toyCodec EncParams.generated zkOpts zkReader = ([66, 65, 68], .ok) ∧
+    (decryptImpl Toy.toyCrypto Toy.toyCodec EncParams.generated zkOpts zkReader).1 = [] ∧
+    (decryptImpl Toy.toyCrypto Toy.toyCodec EncParams.generated zkOpts zkReader).2 ≠ .ok := by
+  refine ⟨?_, bad_unwrap_never_ok _ _ _ zkOpts zkReader (fun _ _ => Or.inr (by show ([] : Bytes).length ≠ EncParams.generated.fkLen; decide))⟩
+  have lcd := (Toy.toyCodec_lawful EncParams.generated).for zkManifest (by decide)
+  have lc : Toy.toyCrypto.LawfulFor EncParams.generated
+      (payloadKey Toy.toyCrypto EncParams.generated (List.replicate 32 0) zkManifest.np) zkManifest.np :=
+    Toy.toyCrypto_lawful.for _ _
+  have hstream : zkReader.stream = signHeader Toy.toyCrypto Toy.toyCodec EncParams.generated (List.replicate 32 0)
+      (Toy.toyCodec.render zkManifest) ++ specPayload Toy.toyCrypto EncParams.generated zkManifest.cph
+        (payloadKey Toy.toyCrypto EncParams.generated (List.replicate 32 0) zkManifest.np) zkManifest.np 0
+        (segments EncParams.generated.segSize [66, 65, 68]) := by
+    simp only [zkReader, Reader.stream, List.nil_append]
+    rw [specEncrypt_eq, signHeader_eq]
+  obtain ⟨r', hrs, hrt, hdec⟩ := decrypt_of_header_line true false Toy.toyCrypto Toy.toyCodec EncParams.generated
+    C02.generated_wf Toy.toyCrypto_lawful.hmac_ne lcd.b64 (List.replicate 32 0) zkManifest _ lcd.parse_render
+    lcd.render_line.1 lcd.render_line.2 (by decide) zkOpts (Or.inr (by decide))
+    (fun kn => by show effKey false EncParams.generated zkOpts zkManifest kn = List.replicate 32 0
+                  have h32 : EncParams.generated.fkLen = 32 := rfl
+                  simp [effKey, unwrapFailed, zkOpts, h32]) (fun _ => rfl) _ zkReader rfl
+    (by simp only [signHeader, headerMessage, List.length_append, List.length_cons, List.length_nil]; decide) hstream
+  rw [hdec]
+  have hfails : r'.term.fails = false := by rw [hrt]; rfl
+  have pwf := C02.generated_wf
+  have hconf : confirmed (EncParams.generated.segSize + EncParams.generated.overhead) r' none =
+      sealedSegs Toy.toyCrypto EncParams.generated zkManifest.cph
+        (payloadKey Toy.toyCrypto EncParams.generated (List.replicate 32 0) zkManifest.np) zkManifest.np 0
+        (segments EncParams.generated.segSize [66, 65, 68]) := by
+    simp only [confirmed, visible, hfails, Bool.false_and, Bool.false_eq_true, if_false, Option.toList_none,
+      List.nil_append, hrs]
+    exact segments_specPayload _ _ _ _ _ _ pwf.seg_pos lc _ 0 (segments_shape _ pwf.seg_pos _)
+  have hfin : finOf r' = .ok := by simp [finOf, hfails]
+  rw [processSegments_spec _ _ _ (by decide) r', hconf, hfin]
+  obtain ⟨h1, h2⟩ := runSegs_decrypt_sealed Toy.toyCrypto EncParams.generated zkManifest.cph _ zkManifest.np
+    EncParams.generated.segSize pwf.seg_pos lc (segments EncParams.generated.segSize [66, 65, 68]) 0
+    (segments_shape _ pwf.seg_pos _) (by decide)
+  rw [h1, h2, segments_concat _ pwf.seg_pos]
+
 /-! ### the full statement and its negation -/
 
 /-- The full statement of C02's "never decrypts silently" (no proviso about bytes after the
@@ -450,7 +557,7 @@ def tamper_safe_statement : Prop :=
 /-- The honest manifest and options used by the witness. -/
 def witnessManifest : Manifest := ⟨[107], 1, [1, 2, 3], 1, [1, 2, 3, 4, 5, 6, 7]⟩
 def witnessFk : Bytes := List.replicate 32 7
-def witnessOpts : DecryptOpts := ⟨[], fun _ _ => witnessFk⟩
+def witnessOpts : DecryptOpts := { unwrap := fun _ _ => witnessFk }
 /-- The document of the one-byte message `[42]`, cut right after its header. -/
 def witnessReader : Reader :=
   { data := (specEncrypt Toy.toyCrypto Toy.toyCodec EncParams.generated witnessFk witnessManifest [42]).take
@@ -461,7 +568,7 @@ theorem witness_decrypts_to_empty :
   apply header_only_accepted Toy.toyCrypto Toy.toyCodec EncParams.generated C02.generated_wf
     Toy.toyCrypto_lawful.hmac_ne witnessFk (by decide) witnessManifest
     ((Toy.toyCodec_lawful EncParams.generated).for witnessManifest (by decide)) (by decide) [42]
-    witnessOpts (Or.inr (by decide)) (fun _ => rfl) ?_ witnessReader rfl rfl
+    witnessOpts (Or.inr (by decide)) (fun _ => rfl) (fun _ => rfl) ?_ witnessReader rfl rfl
   simp only [signHeader, headerMessage, List.length_append, List.length_cons, List.length_nil]
   decide
 
@@ -483,14 +590,13 @@ theorem witness_noForgery :
     (header_wf Toy.toyCrypto Toy.toyCodec EncParams.generated C02.generated_wf Toy.toyCrypto_lawful.hmac_ne
       witnessFk witnessManifest ((Toy.toyCodec_lawful EncParams.generated).for witnessManifest (by decide))) hhdr witnessReader rfl hcut
   constructor
-  · intro ml cl r' m' kn h hp _
+  · intro ml cl r' m' kn h hp _ _
     have h' : readHeaderWith true EncParams.generated witnessReader = .ok (ml, cl, r') := h
     rw [hrh] at h'
     cases h'
     rw [(Toy.toyCodec_lawful EncParams.generated).parse_render witnessManifest (by decide)] at hp
     cases hp
-    have hk : effKey EncParams.generated witnessFk = witnessFk := by decide
-    exact ⟨hk, rfl, rfl⟩
+    exact ⟨rfl, rfl, rfl⟩
   · intro ml cl r' h
     have h' : readHeaderWith true EncParams.generated witnessReader = .ok (ml, cl, r') := h
     rw [hrh] at h'
